@@ -21,6 +21,23 @@
    inside.  With the limit disabled there are no Enter events (Start puts a
    render in flight).
 
+   Rounds.  A case may carry ROUNDS: after the drain of the history and before
+   the refill probe the driver repeats, on the same engine, small histories
+   that begin and end at an empty gate - some renders are put inside, then K
+   callers ARRIVE TOGETHER (their Render calls are released by one barrier at
+   the same instant) so that the free slots are taken and the rest waits, the
+   contexts of some waiting callers are ended while the renders inside are
+   still held, then everybody is told to leave.  A round numbers its renders
+   from 1 and is recorded like a history (windows, cancels, commanded); rounds
+   with exactly the same record are reported once.  Each round is judged as a
+   history of its own on a gate with the same limit: oracle and acceptor start
+   afresh.  For the acceptor this is Props.C09.C09_round_reset (after a finished
+   history the gate accepts a further history, its names shifted past the used
+   ones, exactly as a new gate does, with the same sets); the oracle needs no
+   such argument, every clause but [refill_ok] speaks about one round's
+   observations and the limit only.  [round_closed] (agreement) demands that a
+   round ended with nobody inside and nobody waiting.
+
    agree  : the acceptor M accepts the whole trace, after every window its
             inflight/waiting sets are the observed inside/waiting sets,
             GetRateLimit() is the configured limit, and each render left the
@@ -47,6 +64,12 @@ Record win := {
   w_returned : list (rid * cls);
 }.
 
+Record round09 := {
+  r_wins      : list win;
+  r_cancels   : list (rid * bool);
+  r_commanded : list (rid * outcome);
+}.
+
 Record case09 := {
   cfg       : nat;                   (* configured limit (WithRateLimit or Inject) *)
   go_limit  : nat;                   (* GetRateLimit() *)
@@ -55,7 +78,13 @@ Record case09 := {
                                         within the bound (2 s) *)
   commanded : list (rid * outcome);  (* the way out each render was told to take (missing template: o_not_found) *)
   refill_ok : bool;                  (* at the quiescent end [cfg] fresh renders were inside together *)
+  rounds    : list round09;          (* the distinct rounds driven between the drain and the refill probe *)
 }.
+
+(* a round as a history of its own on a gate with the same limit *)
+Definition round_case (c : case09) (r : round09) : case09 :=
+  {| cfg := cfg c; go_limit := go_limit c; wins := r_wins r; cancels := r_cancels r;
+     commanded := r_commanded r; refill_ok := true; rounds := [] |}.
 
 Fixpoint assoc {A} (r : rid) (l : list (rid * A)) : option A :=
   match l with
@@ -122,9 +151,16 @@ Definition ok_ctx_outside (c : case09) : bool :=
                         (wins c))
           (all_returned c).
 
-Definition oracle09 (c : case09) : bool :=
+Definition oracle1 (c : case09) : bool :=
   (go_limit c =? cfg c) && ok_bound c && ok_no_stall c && ok_gone [] (wins c)
   && ok_cancels c && ok_ctx [] (wins c) && ok_ctx_outside c && refill_ok c.
+
+(* the history, and every round: callers that arrive together beyond the free
+   slots wait ([ok_no_stall], [ok_bound]); each waiting caller whose context was
+   ended while the gate was full returned the context error within the bound and
+   never got inside ([ok_cancels], [ok_ctx], [ok_ctx_outside]) *)
+Definition oracle09 (c : case09) : bool :=
+  oracle1 c && forallb (fun r => oracle1 (round_case c r)) (rounds c).
 
 (* ------------------------------------------------------------ agreement with M *)
 
@@ -157,11 +193,21 @@ Definition class_fits (c : case09) (cancelled : list rid) (rk : rid * cls) : boo
       end
     end.
 
-Definition agree09 (c : case09) : bool :=
+Definition agree1 (c : case09) : bool :=
   let cancelled := cancelled_of (flat_map w_events (wins c)) in
   (go_limit c =? get_rate_limit (gate_init (cfg c)))
   && accept (Some (gate_init (cfg c))) (wins c)
   && forallb (class_fits c cancelled) (all_returned c).
+
+(* a round ends at an empty gate (that is what lets the next one start afresh) *)
+Definition round_closed (r : round09) : bool :=
+  match rev (r_wins r) with
+  | w :: _ => match w_inside w, w_waiting w with [], [] => true | _, _ => false end
+  | [] => false
+  end.
+
+Definition agree09 (c : case09) : bool :=
+  agree1 c && forallb (fun r => round_closed r && agree1 (round_case c r)) (rounds c).
 
 Definition judge (c : case09) : nat := verdict true (oracle09 c) (agree09 c).
 
